@@ -19,7 +19,11 @@ CONSTANTS CertKeys     \* identities, e.g. {"k1","k2","k3"}
 NONE == "none"
 Signers == CertKeys \cup {NONE, "kx"}      \* kx: a key unknown to the server
 
-InitState(cfg) == [rec |-> [k \in CertKeys |-> FALSE], cert |-> [k \in CertKeys |-> "none"], cfg |-> cfg]
+\* prevrec[k]: the record of the identity's PREVIOUS certificate key is still stored (after a node credential
+\* rotation); hasprev[k]: the node still holds its previous credentials
+InitState(cfg) == [rec |-> [k \in CertKeys |-> FALSE], cert |-> [k \in CertKeys |-> "none"],
+                   prevrec |-> [k \in CertKeys |-> FALSE], hasprev |-> [k \in CertKeys |-> FALSE],
+                   prevfresh |-> [k \in CertKeys |-> FALSE], cfg |-> cfg]
 \* cfg = [nidl |-> storage supports lookup by node id, base |-> a base TLS configuration exists]
 
 Out(res, st) == [res |-> res, st |-> st]
@@ -35,11 +39,24 @@ DoRogue(st, o) == IF st.cert[o.k] \notin {"fresh", "stale"} THEN Out("skip", st)
 \* the server rotates its roots once the node's second chain has become valid (real time): the node keeps one recognised chain
 DoRotateWait(st) == Out("ok", st)
 
+\* node credential rotation end to end (rotation.RotateNodeCredentials authenticated by the current shared key):
+\* the new key gets a record, the old record stays until the application removes it
+DoRotateNode(st, o) ==
+  IF st.cert[o.k] \notin {"fresh", "stale"} THEN Out("skip", st)
+  ELSE IF ~st.rec[o.k] THEN Out("error", st)
+  ELSE Out("ok", [st EXCEPT !.prevrec[o.k] = TRUE, !.hasprev[o.k] = TRUE, !.prevfresh[o.k] = (st.cert[o.k] = "fresh"), !.cert[o.k] = "fresh"])
+DoRemovePrev(st, o) == IF st.prevrec[o.k] THEN Out("ok", [st EXCEPT !.prevrec[o.k] = FALSE]) ELSE Out("skip", st)
+\* dialing with the PREVIOUS credentials
+DoDialPrev(st, o) ==
+  IF ~st.hasprev[o.k] THEN Out("skip", st)
+  ELSE IF st.prevrec[o.k] /\ st.prevfresh[o.k] THEN Out("auth", st) ELSE Out("temperr", st)
+
 DoEnroll(st, o) ==   \* operator-authorised enrolment of a brand-new identity
   IF st.cert[o.k] # "none" THEN Out("skip", st)
   ELSE Out("ok", [st EXCEPT !.rec[o.k] = TRUE, !.cert[o.k] = "fresh"])
 DoRemove(st, o) == IF st.rec[o.k] THEN Out("ok", [st EXCEPT !.rec[o.k] = FALSE]) ELSE Out("skip", st)
-DoReinit(st) == Out("ok", [st EXCEPT !.cert = [k \in CertKeys |-> IF st.cert[k] = "fresh" THEN "stale" ELSE st.cert[k]]])
+DoReinit(st) == Out("ok", [st EXCEPT !.cert = [k \in CertKeys |-> IF st.cert[k] = "fresh" THEN "stale" ELSE st.cert[k]],
+                                     !.prevfresh = [k \in CertKeys |-> FALSE]])
 
 (***************************************************************************)
 (* Adversarial client c = [kind, k, ck, chain, priv, nsig, stt, skip, nid, *)
@@ -98,6 +115,9 @@ Apply(st, o) ==
     [] o.op = "AuthorizePending" -> DoAuthorizePending(st, o)
     [] o.op = "Rogue" -> DoRogue(st, o)
     [] o.op = "RotateWait" -> DoRotateWait(st)
+    [] o.op = "RotateNode" -> DoRotateNode(st, o)
+    [] o.op = "RemovePrev" -> DoRemovePrev(st, o)
+    [] o.op = "DialPrev" -> DoDialPrev(st, o)
     [] o.op = "Malformed" -> DoMalformed(st, o)
 
 (* universes *)
